@@ -139,7 +139,9 @@ func Normalize(dict map[string]any, env types.Mapping) (map[string]any, error) {
 
 		dict["services"] = services
 	}
-	setNameFromKey(dict)
+	if err := setNameFromKey(dict); err != nil {
+		return nil, err
+	}
 
 	return dict, nil
 }
@@ -245,17 +247,23 @@ func resolve(a any, fn func(s string) (string, bool), keepEmpty bool) (any, bool
 }
 
 // Resources with no explicit name are actually named by their key in map
-func setNameFromKey(dict map[string]any) {
-	for _, r := range []string{"networks", "volumes", "configs", "secrets"} {
-		a, ok := dict[r]
+func setNameFromKey(dict map[string]any) error {
+	for _, kind := range []string{"networks", "volumes", "configs", "secrets"} {
+		a, ok := dict[kind]
 		if !ok {
 			continue
 		}
-		toplevel := a.(map[string]any)
+		toplevel, ok := a.(map[string]any)
+		if !ok {
+			return fmt.Errorf("%s must be a mapping", kind)
+		}
 		for key, r := range toplevel {
 			var resource map[string]any
 			if r != nil {
-				resource = r.(map[string]any)
+				resource, ok = r.(map[string]any)
+				if !ok {
+					return fmt.Errorf("%s.%s must be a mapping", kind, key)
+				}
 			} else {
 				resource = map[string]any{}
 			}
@@ -269,6 +277,7 @@ func setNameFromKey(dict map[string]any) {
 			toplevel[key] = resource
 		}
 	}
+	return nil
 }
 
 func isTrue(x any) bool {
